@@ -66,6 +66,17 @@ def vectors(name, maxarity, quick, rnd, sample_last=0):
     for k in keys:
         for v in itertools.product(a, repeat=maxarity):
             yield [k] + list(v)
+    # option keyword followed by every token, after a key and one or two plausible arguments
+    few = [b"a", b"1", b"0", b"5-1", b"*"]
+    for o in OPTIONS.get(name, []):
+        for k in keys:
+            for x in few:
+                for t in a:
+                    yield [k, x, o, t]
+            for x in few[:3]:
+                for y in few[:3]:
+                    for t in a:
+                        yield [k, x, y, o, t]
     for _ in range(sample_last):
         n = maxarity + rnd.choice([1, 2, 3])
         yield [rnd.choice(a) for _ in range(n)]
